@@ -41,3 +41,33 @@ def five_backends():
 
 def masked_cfgs_quick():
     return [Cfg("asm", 4, 2, 4), Cfg("c32", 3, 3, 3), Cfg("c64", 2, 1, 2)]
+
+
+BACKEND_DEF = {"asm": [], "c64": ["-DASCON_FORCE_C64"], "c32": ["-DASCON_FORCE_C32"], "dxor": ["-DASCON_FORCE_DIRECT_XOR"],
+               "generic": ["-DASCON_FORCE_GENERIC"]}
+
+
+def adapter_obj(src, cfg, builddir, extra=()):
+    """Compile a per-configuration C adapter that uses the library's internal
+    headers with the same configuration macros as the library build."""
+    import vcommon
+    flags = ["-DHAVE_CONFIG_H"] + BACKEND_DEF[cfg.backend] + list(extra)
+    if cfg.checker:
+        flags += ["-DASCON_FORCE_GENERIC", "-DASCON_CHECK_ACQUIRE_RELEASE"]
+    cfgh = os.path.join(builddir, "config.h")
+    return compile_obj(os.path.join(H, src), extra_flags=flags, includes=[builddir, os.path.join(vcommon.REPO, "src", "ascon")],
+                       deps=[cfgh, os.path.join(H, "adp_masked.h")], key_extra=vcommon.tree_hash() + cfg.name)
+
+
+def masked_bins(name, src, cfgs, extra_flags=()):
+    """Harness + word tape + per-configuration masked adapter."""
+    dirs = build_libs(cfgs)
+    obj = compile_obj(os.path.join(H, src), extra_flags=list(extra_flags), key_extra=headers_key(),
+                      deps=[os.path.join(H, "lib_api.hpp"), os.path.join(H, "trng_tape.h"), os.path.join(H, "adp_masked.h")])
+    tape = tape_obj(True)
+    out = []
+    for c in cfgs:
+        adp = adapter_obj("adp_masked.c", c, dirs[c.name])
+        san = ["-fsanitize=address,undefined"] if "asan" in c.instr else []
+        out.append((c.name, link_bin(name, [obj, tape, adp], dirs[c.name], extra=san)))
+    return out
